@@ -1,9 +1,11 @@
 package core
 
 import (
+	"encoding/json"
 	"strings"
 
 	"github.com/jsightapi/jsight-api-core/catalog"
+	"github.com/jsightapi/jsight-api-core/catalog/ser/openapi"
 )
 
 // vEmit: the data ToJson / ToJsonIndent hand to encoding/json for the whole catalog:
@@ -64,6 +66,8 @@ var vC16Docs = []string{
 	"JSIGHT 0.3\nINFO\n  Title \"T\"\nTYPE @r regex\n/[a-z]{3,8}\\d+/\nTYPE @o\n{\n  \"x\": @r,\n  \"y\": [@r]\n}\nGET /x\n  200 regex\n  /(foo|bar|baz){2}x*/\nPOST /y\n  Request @o\n  200 @o\n",
 	// allOf inheritance, enums, path variables, query
 	"JSIGHT 0.3\nENUM @e\n[1, 2]\nTYPE @base\n{\n  \"id\": 1 // {enum: @e}\n}\nTYPE @kid\n{ // {allOf: \"@base\"}\n  \"n\": \"s\"\n}\nGET /k/{id}\n  Query\n  {\"q\": 1}\n  200 @kid\n",
+	// several responses with the same code (the export joins them), annotated root values, a regex that matches the empty string
+	"JSIGHT 0.3\nTYPE @cat\n{ // a cat\n  \"n\": \"Tom\"\n}\nTYPE @opt regex\n/[a-z]*/\nSERVER @s1\n  BaseUrl \"https://a\"\nSERVER @s2\n  BaseUrl \"https://b\"\nGET /c\n  200 @cat // first\n  200 // second\n  { // inline note\n    \"k\": @opt\n  }\n  404 regex\n  /x?/\n",
 	// JSON-RPC
 	"JSIGHT 0.3\nTYPE @r regex\n/z+/\nURL /rpc\n  Protocol json-rpc-2.0\n  Method m\n    Params\n    {\"p\": @r}\n    Result\n    [@r]\n",
 }
@@ -96,13 +100,17 @@ func HRepeat() {
 		}
 	}
 	for i := 0; i < 3; i++ {
-		switch vInt("op"+string(rune('0'+i)), 0, 2) {
+		switch vInt("op"+string(rune('0'+i)), 0, 3) {
 		case 1:
 			check() // ToJson / ToJsonIndent
 		case 2:
 			if title != nil {
 				_ = title.Title // Title()
 			}
+		case 3:
+			// ToOpenAPIJson / ToOpenAPIJsonIndent up to the call of encoding/json: the export must
+			// leave the catalog as it found it
+			_, _ = openapi.NewOpenAPI(c.catalog)
 		}
 	}
 	check()
@@ -139,8 +147,164 @@ func HEmitHole() {
 		vAssert(!strings.Contains(l, "error:"), "c04-serialisation-step-fails-for-an-accepted-document")
 		vAssert(!strings.Contains(l, "ILL-TYPED"), "c04-content-node-typed-inconsistently")
 	}
+	vCheckJSON(c)
 	vReach("emitted")
 	vObserve("ok")
 }
 
 func init() { vRegister("HEmitHole", HEmitHole) }
+
+// vSerialise: the four serialisations of a catalog as kit.JApi produces them (ToJson,
+// ToJsonIndent, ToOpenAPIJson, ToOpenAPIJsonIndent) — the REAL code, with encoding/json
+// modelled over interpreter values in the engine (validated byte for byte against the
+// native bytes of every corpus file by `vcheck SELFTEST`). An error is rendered as text.
+func vSerialise(c *JApiCore, which int) string {
+	var b []byte
+	var err error
+	switch which {
+	case 0:
+		b, err = c.catalog.ToJson()
+	case 1:
+		b, err = c.catalog.ToJsonIndent()
+	default:
+		oa, oerr := openapi.NewOpenAPI(c.catalog)
+		if oerr != nil {
+			return "openapi-error:" + oerr.Error()
+		}
+		if which == 2 {
+			b, err = json.Marshal(oa)
+		} else {
+			b, err = json.MarshalIndent(oa, "", "  ")
+		}
+	}
+	if err != nil {
+		return "error:" + err.Error()
+	}
+	return string(b)
+}
+
+// HRepeatBytes (C16): the five accessors of a built catalog called in a symbolic sequence
+// (up to four calls, any of ToJson / ToJsonIndent / ToOpenAPIJson / ToOpenAPIJsonIndent /
+// Title): each accessor returns, every time, the bytes of its first call.
+func HRepeatBytes() {
+	var doc string
+	if vParam("site", -1) >= 0 {
+		doc = vC16Docs[vParam("docp", 0)] // sites are numbered per document
+	} else {
+		doc = vC16Docs[vInt("doc", 0, len(vC16Docs)-1)]
+	}
+	c, je := vBuildText(doc)
+	vAssert(je == nil, "c16-fixture-rejected")
+	first := map[int]string{}
+	call := func(which int) {
+		var got string
+		if which == 4 {
+			if c.catalog.Info != nil {
+				got = c.catalog.Info.Title
+			}
+		} else {
+			got = vSerialise(c, which)
+		}
+		if prev, ok := first[which]; ok {
+			vAssert(got == prev, "c16-accessor-returns-other-bytes-than-before")
+		} else {
+			first[which] = got
+		}
+	}
+	if vParam("site", -1) < 0 {
+		for i := 0; i < 4; i++ {
+			call(vInt("call"+string(rune('0'+i)), 0, 4))
+		}
+	}
+	// and finally each once more — under ONE range-over-map site iterating in a symbolic order
+	// (param site; -1: none): a serialiser that walks a Go map may not let the order show
+	site := vParam("site", -1)
+	for w := 0; w <= 4; w++ {
+		call(w)
+	}
+	vMapOrderSite(site)
+	rounds := 1
+	if !vSymbolic() {
+		rounds = 50 // natively the iteration order is random: repeat to meet other orders
+	}
+	for r := 0; r < rounds; r++ {
+		for w := 0; w <= 4; w++ {
+			call(w)
+		}
+	}
+	if vSymbolic() && site >= 0 && vMapOrderSites() <= site {
+		vReach("no-such-site")
+	}
+	vMapOrderSite(-1)
+	vReach("repeatable")
+	vObserve("ok", len(first[0]), len(first[2]))
+}
+
+func init() { vRegister("HRepeatBytes", HRepeatBytes) }
+
+// vCheckJSON (C04): ToJson and ToJsonIndent of an accepted catalog succeed, return valid
+// UTF-8 JSON, agree up to whitespace and carry the fixed top-level keys of JDoc Exchange
+// 2.0.0 and every interaction, tag, server, user type and enum under its name.
+func vCheckJSON(c *JApiCore) {
+	j, ji := vSerialise(c, 0), vSerialise(c, 1)
+	vAssert(!strings.HasPrefix(j, "error:"), "c04-tojson-fails-for-an-accepted-document")
+	vAssert(!strings.HasPrefix(ji, "error:"), "c04-tojsonindent-fails-for-an-accepted-document")
+	vAssert(vJSONValid([]byte(j)), "c04-tojson-is-not-valid-utf8-json")
+	vAssert(vJSONValid([]byte(ji)), "c04-tojsonindent-is-not-valid-utf8-json")
+	vAssert(vJSONCompact([]byte(ji)) == j, "c04-tojson-and-tojsonindent-differ-beyond-whitespace")
+	vAssert(strings.HasPrefix(j, "{\"tags\":{"), "c04-top-level-does-not-start-with-tags")
+	vAssert(strings.Contains(j, "\"interactions\":{"), "c04-no-interactions-key")
+	vAssert(strings.HasSuffix(j, "\"jsight\":\"0.3\",\"jdocExchangeVersion\":\"2.0.0\"}"), "c04-version-keys")
+	cat := c.catalog
+	_ = cat.Interactions.Each(func(k catalog.InteractionID, v catalog.Interaction) error {
+		vAssert(strings.Contains(j, "\""+k.String()+"\":{\"id\":\""+k.String()+"\",\"protocol\":"), "c04-interaction-without-id-and-protocol")
+		return nil
+	})
+	_ = cat.Tags.Each(func(k catalog.TagName, t *catalog.Tag) error {
+		vAssert(strings.Contains(j, "\""+string(k)+"\":{\"name\":\""+string(k)+"\",\"title\":"), "c04-tag-without-name-and-title")
+		return nil
+	})
+	vAssert(!strings.Contains(j, "\"interactionGroups\":null"), "c04-tag-without-interaction-groups-array")
+	vAssert(!strings.Contains(j, "\"body\":null"), "c04-response-without-body-object")
+	_ = cat.UserTypes.Each(func(k string, _ *catalog.UserType) error {
+		vAssert(strings.Contains(j, "\""+k+"\":{"), "c04-user-type-missing")
+		return nil
+	})
+	_ = cat.UserEnums.Each(func(k string, _ *catalog.UserRule) error {
+		vAssert(strings.Contains(j, "\""+k+"\":{"), "c04-user-enum-missing")
+		return nil
+	})
+	_ = cat.Servers.Each(func(k string, _ *catalog.Server) error {
+		vAssert(strings.Contains(j, "\""+k+"\":{"), "c04-server-missing")
+		return nil
+	})
+}
+
+// vCheckOpenAPIJSON (C17): if the export succeeds, its JSON is valid, both forms agree up to
+// whitespace, and every $ref names a schema of components.
+func vCheckOpenAPIJSON(c *JApiCore) {
+	o, oi := vSerialise(c, 2), vSerialise(c, 3)
+	if strings.HasPrefix(o, "openapi-error:") {
+		return // an error value: allowed
+	}
+	vAssert(!strings.HasPrefix(o, "error:") && !strings.HasPrefix(oi, "error:"), "c17-marshal-of-the-document-fails")
+	vAssert(vJSONValid([]byte(o)), "c17-openapi-json-invalid")
+	vAssert(vJSONCompact([]byte(oi)) == o, "c17-openapi-json-and-indent-differ-beyond-whitespace")
+	vAssert(strings.HasPrefix(o, "{\"openapi\":\"3.0.3\",\"info\":{"), "c17-openapi-and-info-first")
+	vAssert(strings.Contains(o, "\"paths\":{"), "c17-no-paths-key")
+	const refKey = "\"$ref\":\"#/components/schemas/"
+	rest := o
+	for {
+		i := strings.Index(rest, refKey)
+		if i < 0 {
+			break
+		}
+		rest = rest[i+len(refKey):]
+		e := strings.IndexByte(rest, '"')
+		name := rest[:e]
+		_, ok := c.catalog.UserTypes.Get("@" + name)
+		vAssert(ok, "c17-ref-does-not-resolve-to-a-component")
+		ci := strings.Index(o, "\"components\":{\"schemas\":{")
+		vAssert(ci >= 0 && strings.Contains(o[ci:], "\""+name+"\":"), "c17-ref-target-missing-in-components")
+	}
+}
